@@ -78,26 +78,22 @@ func (c *ShipConnection) setState(newState model.ShipMessageExchangeState, err e
 		}
 		c.mux.Unlock()
 
-		// the connection was closed by another goroutine while this message is processed:
-		// its end has been reported, progress of its handshake must not follow
-		if c.isCloseReported() && !isHandshakeEndState(newState) {
-			return
-		}
-
-		c.infoProvider.HandleShipHandshakeStateUpdate(c.remoteSKI, state)
+		c.reportState(state)
 		return
 	}
 	c.mux.Unlock()
 }
 
-// states that end a handshake without success
-func isHandshakeEndState(state model.ShipMessageExchangeState) bool {
-	switch state {
-	case model.SmeStateError, model.SmeHelloStateAbort, model.SmeHelloStateAbortDone,
-		model.SmeHelloStateRemoteAbortDone, model.SmeHelloStateRejected:
-		return true
+// report a handshake state, unless the end of the connection has been reported already:
+// a connection closed by another goroutine (the loser of a double connection, a disconnect
+// by the user) while a message is processed must not overwrite with its progress, abort
+// or error states what the hub knows about the service from a connection that lives
+func (c *ShipConnection) reportState(state model.ShipState) {
+	if c.isCloseReported() {
+		return
 	}
-	return false
+
+	c.infoProvider.HandleShipHandshakeStateUpdate(c.remoteSKI, state)
 }
 
 func (c *ShipConnection) getState() model.ShipMessageExchangeState {
@@ -246,7 +242,7 @@ func (c *ShipConnection) endHandshakeWithError(err error) {
 		State: model.SmeStateError,
 		Error: err,
 	}
-	c.infoProvider.HandleShipHandshakeStateUpdate(c.remoteSKI, state)
+	c.reportState(state)
 }
 
 // set the handshake timer to a new duration and start the channel
